@@ -663,6 +663,20 @@ def judge(ctx, case: dict, obs: dict, line_sink: list | None = None) -> None:
         return
     second_failed = second["exit"] != 0     # the dry-run listing is still judged; the removal is only bounded from above
 
+    # --- the project root: the model takes it as an input (expected from the layout). pytask creates `<root>/.pytask/.gitignore`
+    #     at configuration time, which shows where the real code put the root; the model's `findRoot` (built from the stop rules
+    #     the translator reads in config_utils.find_project_root_and_config) is asked as well.
+    made = sorted(p[:-len("/.pytask/.gitignore")] for p in s1 if p.endswith("/.pytask/.gitignore") and p not in s0)
+    if made != [case["root"]]:
+        ctx.disagreement(f"root-differs: pytask configured the project root(s) {made}, the layout {case['layout']} makes it "
+                         f"{case['root']!r}", rp)
+    if ctx.use_model and line_sink is not None:
+        common = os.path.commonpath(["/" + r for r in roots]).lstrip("/") if case["path_rels"] is not None else case["cwd"]
+        sect = [f for f, t in case["files"].items() if f.endswith("/pyproject.toml") and "[tool.pytask.ini_options]" in t]
+        rline = " ".join(["clean.root", "base=/v", "tree=" + tree_tokens({"ws": "d", **{f"ws/{k}": v for k, v in s0.items()}}, "ws"),
+                          "common=" + enc_path(f"{V}/{common}"), "sect=" + ",".join(enc_path(f"{V}/{x}") for x in sect)])
+        line_sink.append(("root", case, rline, case["root"], f"{case['root']}/pyproject.toml" if case["has_cfg"] else None))
+
     # --- oracle 2: dry-run removes / changes nothing (checked first: everything else is read off the dry-run listing)
     for p, k in s0.items():
         if p not in s1:
@@ -759,7 +773,18 @@ def compare_model(ctx, pending: list) -> None:
     if not pending:
         return
     answers = ctx.driver().batch([p[2] for p in pending])
-    for (case, obs, line, listed, s2), ans in zip(pending, answers):
+    for item, ans in zip(pending, answers):
+        if item[0] == "root":
+            _, case, _, want_root, want_cfg = item
+            a = parse_answer(ans)
+            got_root = dec(a.get("root", "?"))[len(V) + 1:]
+            got_cfg = None if a.get("config", "-") == "-" else dec(a["config"])[len(V) + 1:]
+            ctx.traces_validated += 1
+            if (got_root, got_cfg) != (want_root, want_cfg):
+                ctx.disagreement(f"model-root-differs: findRoot gives {got_root!r} / {got_cfg!r}, the layout {case['layout']} makes it "
+                                 f"{want_root!r} / {want_cfg!r}", {"kind": "cli", "case": case})
+            continue
+        case, obs, line, listed, s2 = item
         rp = {"kind": "cli", "case": case}
         a = parse_answer(ans)
         if "listed" not in a:
